@@ -326,9 +326,6 @@ func envCase(ts *TypeSpec, i int, r *vlib.Rand) {
 		if clean {
 			c.Count("env_roundtrips_ok", 1)
 		}
-		if ts.Class != "record" && i%2 == 0 {
-			reuseCase(ts, i, r.Fork("reuse"), " with the environment "+envString(env))
-		}
 		runHistory(ts, tree, i, r.Fork("history"), where, clean)
 	})
 }
